@@ -741,6 +741,11 @@ def expected_files(out):
             from_bad = st["frm"].startswith("<") and int(st["frm"][1:]) in s["unop"]
             unsure = lone_builtin or bool([c for c in pos["cls"] if c != "oos"]) or "oos" in pos["cls"]
             nxt = s["stages"][i + 1] if i + 1 < n else None
+            if st["kind"] == "B" and s["capture"] and n > 1 and i == n - 1:
+                # finding captured-builtin-last-stage (C04/C11): a builtin that is the LAST stage of a captured pipeline of
+                # several stages runs in a child with capture on, puts its text into its own CommandResult and exits:
+                # the text reaches neither the capture pipe nor a redirection target
+                unsure = True
             if not pos["ok"]:
                 unsure = True              # the diagnostic goes to the stage's current (possibly redirected) stderr
             if nxt is not None and (nxt["kind"] != "E" or not m["posix"][i + 1]["ok"] or nxt["frm"] != "-"):
